@@ -644,6 +644,27 @@ Theorem level_merge_keeps_children_ordered : forall ids o, guard ids o -> ord_tr
 Proof. exact merge_tree_children_ordered. Qed.
 Print Assumptions level_merge_keeps_children_ordered.
 
+(* the level-wise test the repaired pass makes gives that hypothesis when the identifiers of the normal objects are
+   distinct, so the whole pass (any number of merged levels, parent or child removed) keeps every object's normal
+   children in order *)
+Theorem level_merge_test_gives_the_hypothesis : forall root ls i l1 l2 chk,
+  levels_of root = Some ls -> nth_error ls (Nat.pred i) = Some l1 -> nth_error ls i = Some l2 ->
+  NoDup (map oid (nflatten root)) ->
+  levels_same_structure l1 l2 chk = true -> parent_first_differs l1 l2 = false ->
+  guard (map oid l1) root.
+Proof. exact level_guard. Qed.
+Print Assumptions level_merge_test_gives_the_hypothesis.
+
+Theorem level_merge_pass_keeps_children_ordered : forall filters dm root root',
+  keep_structure filters dm root = Some root' ->
+  NoDup (nid root) -> ord_tree root -> ord_tree root' /\ NoDup (nid root').
+Proof. exact keep_structure_children_ordered. Qed.
+Print Assumptions level_merge_pass_keeps_children_ordered.
+
+Example level_merge_pass_nonvacuous :
+  NoDup (nid wide_tree) /\ ord_tree wide_tree /\ NoDup (nid ex_tree) /\ ord_tree ex_tree.
+Proof. exact merge_pass_example. Qed.
+
 (* without the hypothesis the statement is false: two Packages in order, their Cores not; the repaired pass keeps the
    Package level of this tree *)
 Example level_merge_order_refuted_without_guard :
